@@ -317,6 +317,9 @@ class USBStreamOutEndpoint(Elaboratable):
         # Stores whether we're in the middle of a transfer.
         transfer_active = Signal()
 
+        # Stores whether the packet being received is a full (max-packet-size) packet.
+        packet_is_full = Signal()
+
         #
         # Receiver logic.
         #
@@ -405,9 +408,11 @@ class USBStreamOutEndpoint(Elaboratable):
         with m.If(fifo.write_en):
             m.d.usb += rx_cnt.eq(rx_cnt + 1)
 
-            # Set the transfer active flag depending on whether this is a full packet.
-            with m.If(rx_last):
-                m.d.usb += transfer_active.eq(full_packet)
+        # Note whether the packet we're receiving is a full packet.
+        with m.If(tokenizer.new_token):
+            m.d.usb += packet_is_full.eq(0)
+        with m.Elif(fifo.write_en & rx_last):
+            m.d.usb += packet_is_full.eq(full_packet)
 
         # We'll set the overflow flag if we're receiving data we don't have room for.
         with m.If(data_is_lost):
@@ -425,6 +430,10 @@ class USBStreamOutEndpoint(Elaboratable):
         # We'll toggle our DATA PID each time we issue an ACK to the host [USB 2.0: 8.6.2].
         with m.If(data_response_requested & data_accepted):
             m.d.usb += expected_data_toggle.eq(~expected_data_toggle)
+
+            # Only an accepted packet moves the transfer along: a full packet continues it, a short or
+            # zero-length one ends it [USB 2.0: 5.8.3]. Corrupted, NAK'd or repeated packets change nothing.
+            m.d.usb += transfer_active.eq(packet_is_full | (fifo.write_en & rx_last & full_packet))
 
         # If there has been a ClearFeature(ENDPOINT_HALT) request address to this endpoint...
         clear_endpoint_halt = \
